@@ -304,15 +304,16 @@ def opXattr (toks : List String) : String :=
       | .ok (w, idx) =>
         if w.pairs.isEmpty ∨ w.blocks.isEmpty then s!"rec 0 {showNats idx} none"           -- flush: NO_XATTRS
         else
-          let (kv, descs) := flushKv rawRef w
-          let ids := encDescs descs
+          let fl := xattrFlush rawCmp rawRef w
+          let kv := fl.kv
+          let ids := encDescs fl.descs
           let count := locCount w.blocks.length
           let cost := metaBlockSize + 2
-          let stores := locStores (if fix = "1" then some count else none)
-            (fun k => (k * sizeofXattrId) / metaBlockSize * cost) w.blocks.length
-          let oob := stores.filter (fun s => s.1 ≥ count)
-          let locs := applyStores count stores
-          let rdr : XReader := { kv := kv, ids := ids, numIds := w.blocks.length, posOf := fun r => rawPos r }
+          -- the code before /repo 6ae20a5 (`fix` = 0) stored beyond the array: counted, for the replay of D9
+          let oob := (locStores (if fix = "1" then some count else none)
+            (fun k => (k * sizeofXattrId) / metaBlockSize * cost) w.blocks.length).filter (fun s => s.1 ≥ count)
+          let locs := fl.locs
+          let rdr : XReader := fl.reader rawUnc (fun r => rawPos r)
           let distinct := idx.eraseDups
           let rd := distinct.map (fun i => s!"{i}:" ++ showStatus (readSet rdr i) showSet)
           s!"rec 0 {showNats idx} n={w.blocks.length} kv={toHexTok kv} ids={toHexTok ids} locs={showNats locs} " ++
@@ -331,15 +332,15 @@ def opXsets (toks : List String) : String :=
       match recordAll {} sets with
       | .error e => s!"rec {e}"
       | .ok (w, idx) =>
-        let (kv, descs) := flushKv rawRef w
-        let ids := encDescs descs
+        let fl := xattrFlush rawCmp rawRef w
+        let kv := fl.kv
+        let ids := encDescs fl.descs
         let count := locCount w.blocks.length
         let cost := metaBlockSize + 2
-        let stores := locStores (if fix = "1" then some count else none)
-          (fun k => (k * sizeofXattrId) / metaBlockSize * cost) w.blocks.length
-        let oob := stores.filter (fun s => s.1 ≥ count)
-        let locs := applyStores count stores
-        let rdr : XReader := { kv := kv, ids := ids, numIds := w.blocks.length, posOf := fun r => rawPos r }
+        let oob := (locStores (if fix = "1" then some count else none)
+          (fun k => (k * sizeofXattrId) / metaBlockSize * cost) w.blocks.length).filter (fun s => s.1 ≥ count)
+        let locs := fl.locs
+        let rdr : XReader := fl.reader rawUnc (fun r => rawPos r)
         let good := idx.zip sets |>.all (fun (i, s) => match readSet rdr i with | .ok l => l == s | .error _ => false)
         s!"rec 0 n={w.blocks.length} kvlen={kv.length} idslen={ids.length} locs={showNats locs} oob={oob.length} same={good}"
     | _, _ => "bad-op"
